@@ -36,7 +36,7 @@ def compare(ctx, what, inp, expected, got):
 def run(ctx):
     quick = ctx.tier == "quick"
     g = gen()
-    k = {"MaxSort": 4 if quick else 7, "MaxHay": 4 if quick else 8, "MaxNeedle": 2 if quick else 3, "MaxMulti": 3 if quick else 5,
+    k = {"MaxSort": 5 if quick else 7, "MaxHay": 6 if quick else 8, "MaxNeedle": 2 if quick else 3, "MaxMulti": 3 if quick else 5,
          "MaxN": 9, "MaxB": 10}
     consts = model.constants_block(k)
     ctx.rule = ("TLC enumerates the complete bounded domain of each helper (all 3999 integers; all sequences over a small alphabet up to "
